@@ -165,7 +165,7 @@ fn o14_0_initial_state() {
 // ---- feedback steps: RTT state and RTT sample from a concrete grid (every float operation that
 // ---- involves them constant-folds); X, receive rate, ceiling, flags, times symbolic.
 
-fn slow_start_feedback(rtt_state_ms: Option<u64>, sample_ms: u64) {
+fn slow_start_feedback(rtt_state_ms: Option<u64>, sample_ms: u64) -> (u32, u32, u32) {
     let rtt = rtt_state_ms.map(|m| m as f64 / 1000.0);
     let tld = if rtt.is_some() { Some(kani::any::<u64>()) } else { None };
     let mut c = any_comp(SendRateMode::SlowStart(SlowStartState { time_last_doubled_ms: tld }), rtt);
@@ -193,15 +193,23 @@ fn slow_start_feedback(rtt_state_ms: Option<u64>, sample_ms: u64) {
         if now - t < c.rtt_ms.unwrap() { assert!(x1 <= x0, "[C14] no doubling sooner than one RTT after the previous one"); }
     }
     assert!(c.nofeedback_exp_ms.unwrap() >= now);
-    if rtt.is_some() { kani::cover!(x1 as u64 == 2 * x0 as u64 && x1 > init, "doubled"); }
     std::mem::forget(c);
+    (x0, x1, init)
 }
 
 macro_rules! ss_feedback {
     ($name:ident, $state:expr, $sample:expr) => {
         #[kani::proof]
         #[kani::unwind(4)]
-        fn $name() { slow_start_feedback($state, $sample); }
+        fn $name() { let _ = slow_start_feedback($state, $sample); }
+    };
+    ($name:ident, $state:expr, $sample:expr, doubling) => {
+        #[kani::proof]
+        #[kani::unwind(4)]
+        fn $name() {
+            let (x0, x1, init) = slow_start_feedback($state, $sample);
+            kani::cover!(x1 as u64 == 2 * x0 as u64 && x1 > init, "doubled");
+        }
     };
 }
 
@@ -212,7 +220,7 @@ ss_feedback!(o14_2_slow_start_first_feedback_50, None, 50);
 //@h props=C14,C13,C03 tier=quick timeout=900 role=rate-slowstart-feedback
 //@fn SendRateComp::{step, handle_feedback, update_rtt, update_rto}, RecvRateSet updates, compute_initial_send_rate
 //@bound RTT state 150 ms, sample 50 ms; X, receive rate, ceiling, flags, times symbolic; no loss
-ss_feedback!(o14_2_slow_start_feedback_150_50, Some(150), 50);
+ss_feedback!(o14_2_slow_start_feedback_150_50, Some(150), 50, doubling);
 //@h props=C14,C13,C03 tier=quick timeout=900 role=rate-slowstart-feedback
 //@fn SendRateComp::{step, handle_feedback, update_rtt, update_rto}, RecvRateSet updates, compute_initial_send_rate
 //@bound RTT state 0 ms, sample 0 ms (sub-millisecond LAN); X, receive rate, ceiling, flags, times symbolic; no loss
@@ -224,11 +232,11 @@ ss_feedback!(o14_2_slow_start_first_feedback_0, None, 0);
 //@h props=C14,C13,C03 tier=thorough timeout=900 role=rate-slowstart-feedback
 //@fn SendRateComp::{step, handle_feedback, update_rtt, update_rto}, RecvRateSet updates, compute_initial_send_rate
 //@bound RTT state 7 ms, sample 1000 ms (order-of-magnitude RTT change)
-ss_feedback!(o14_2_slow_start_feedback_7_1000, Some(7), 1000);
+ss_feedback!(o14_2_slow_start_feedback_7_1000, Some(7), 1000, doubling);
 //@h props=C14,C13,C03 tier=thorough timeout=900 role=rate-slowstart-feedback
 //@fn SendRateComp::{step, handle_feedback, update_rtt, update_rto}, RecvRateSet updates, compute_initial_send_rate
 //@bound RTT state 10000 ms, sample 1 ms
-ss_feedback!(o14_2_slow_start_feedback_10000_1, Some(10000), 1);
+ss_feedback!(o14_2_slow_start_feedback_10000_1, Some(10000), 1, doubling);
 //@h props=C14,C13,C03 tier=thorough timeout=900 role=rate-slowstart-feedback
 //@fn SendRateComp::{step, handle_feedback, update_rtt, update_rto}, RecvRateSet updates, compute_initial_send_rate
 //@bound RTT state 1 ms, sample 1 ms
